@@ -106,10 +106,12 @@ FunctionLang::execute(
                         langVal[valLen] == XalanUnicode::charHyphenMinus)
                     {
                         fMatch = true;
-
-                        break;
                     }
                 }
+
+                // The language of the context node is given by the
+                // nearest xml:lang attribute, whether it matches or not.
+                break;
             }
         }
 
